@@ -8,6 +8,27 @@ TB_COMMON = [
 ]
 
 PROPS = {
+    "C03": dict(
+        lean_props=["MayVerif.Props.C03"],
+        # regenerates lean/MayVerif/Generated/ConstsMpsc.lean from the current may_queue/src/{mpsc,spsc}.rs
+        pre_build=["python3", "tools/extract_consts_mpsc.py"],
+        families=[
+            dict(mode="det", name="mq_mpsc", quick=400, thorough=4000, nontrivial=r"cas \S+ \S+ \S+ 0 AcqRel|MpscBlock\d+\+63!|ready@\S+ load 0 0 0 "),
+            dict(mode="det", name="mq_spsc", quick=400, thorough=4000, nontrivial=r"mq\.spsc\.first@\d+ store|t0 ret - mq\.(pop|peek) -1 |t0 ret - mq\.bulk_pop 0 "),
+        ],
+        trusted_base=TB_COMMON + [
+            "level B (per-atomic-operation models Mpsc.lean / Spsc.lean) is tied to level A (where the FIFO refinement is proved) by an executable simulation check on every replayed trace, not by a proof: the refinement B ⊑ A and block safety are stated in Props/C03.lean as open",
+            "block tokens of the trace are generation-unique (the canonicaliser renames a reused address); adversarial address reuse (ABA on the packed tail word) is a model transition (Env.aba) but is not exercised by the generated scenarios",
+            "tools/extract_consts_mpsc.py (regex extraction of BLOCK_SHIFT / repr(align) / closing bit and of the branch conditions the model's cases stand for)",
+        ],
+        assumptions=[
+            "single consumer: pop / bulk_pop / peek / len / is_empty / Drop are called by one actor only (len() dereferences the tail block and is only safe from the consumer; all in-tree callers are consumers)",
+            "spsc: one producer at a time and one consumer at a time",
+            "user-space addresses are below 2^63 (bit 63 of a block pointer is clear)",
+            "bulk_pop is treated as a sequence of pops (one linearization point per element)",
+        ],
+        rule="det mode, may_queue called directly (every atomic access is an event and a schedule point): mpsc 1-3 producers x 1-4 pushes against a consumer mixing pop/bulk_pop/peek/len/is_empty/push after a traced single-threaded prologue that places head and tail at offsets B-3..B+1 (sometimes 2B-3..2B+1) of the 64-slot block, queue dropped with values left; spsc one producer / one consumer with the contended phase starting at offsets B-3..B+1 or after several blocks (block recycling); non-trivial = a failed CAS, the closing bit, a not-ready slot read, a recycled block or an empty result in the trace; distinct = SHA-1 of the canonical trace",
+    ),
     "C05": dict(
         lean_props=["MayVerif.Props.C05"],
         families=[dict(mode="det", name="mutex", quick=600, thorough=20000, nontrivial=r" q\.push ")],
